@@ -1,8 +1,14 @@
 #!/bin/bash
-# usage: lib/sweep_seeds.sh [pattern] : tries every kept seeded change against the quick check of its property
+# usage: lib/sweep_seeds.sh [glob ...] : tries kept seeded changes against the quick check that is expected
+# to catch them (first entry of meta.json checks.caught_by_quick; normally the seed's own property).
+# MUT_DIR / MUT_OUT are passed on to lib/try_patch.sh (parallel sweeps need separate scratch dirs).
 cd /verif
-for d in seeded/${1:-*}/; do
-  id=$(basename $d); prop=$(python3 -c "import json;print(json.load(open('$d/meta.json'))['property'])")
+[ $# -eq 0 ] && set -- '*'
+for pat in "$@"; do
+for d in seeded/$pat/; do
+  [ -f "$d/meta.json" ] || continue
+  id=$(basename $d); prop=$(python3 -c "import json;m=json.load(open('$d/meta.json'));c=m['checks'].get('caught_by_quick') or [m['property']];print(c[0] if m['property'] not in c else m['property'])")
   res=$(lib/try_patch.sh $d/patch.diff $prop 2>&1 | tail -1 | cut -c1-200)
   echo "$id :: $res"
+done
 done
